@@ -284,6 +284,10 @@ func (db *Backend) ForceDeleteBucket(name string) error {
 }
 
 func (db *Backend) BucketExists(name string) (exists bool, err error) {
+	if bytes.Equal([]byte(name), db.metaBucketName) {
+		// The bookkeeping bucket is not an S3 bucket:
+		return false, nil
+	}
 	err = db.bolt.View(func(tx *bolt.Tx) error {
 		b := tx.Bucket([]byte(name))
 		exists = b != nil
